@@ -162,3 +162,13 @@ Fixpoint dispatch (tbl : list schema) (d : descriptor) : option schema :=
   | [] => None
   | s :: r => if descriptor_matches s d then Some s else dispatch r d
   end.
+
+(** an enum of composites ([Performative], [DeliveryState], [Outcome]): [deserialize_enum] peeks at
+    the descriptor ([parse_described_identifier]: nothing is consumed), picks the variant the
+    descriptor names - by code or by name - and reads it through the variant's own visitor *)
+Definition dec_via_enum (fuel : nat) (tbl : list schema) (bs : bytes) : result (schema * list value * bytes) :=
+  let* (d, _) := dec_descriptor None bs in
+  match dispatch tbl d with
+  | None => Err EOther                      (* "Wrong code value for descriptor" *)
+  | Some s => let* (vs, rest) := dec_composite fuel s bs in Ok (s, vs, rest)
+  end.
